@@ -754,6 +754,14 @@ def m_seq_binary_search(engine, st, fr, callee, args, ops):
     return Adt("Result", "Err", [z3.BitVecVal(ins, 64)])
 
 
+def m_from_elem(engine, st, fr, callee, args, ops):
+    """`vec![e; n]`: n copies of the ONE value e (the expression is evaluated once); n concrete"""
+    n = z3.simplify(args[1]) if z3.is_expr(args[1]) else args[1]
+    if not (z3.is_expr(n) and z3.is_bv_value(n)) or n.as_long() > 64:
+        raise Unsupported("vec![e; n] with a symbolic or large n")
+    return Arr([args[0]] * n.as_long(), "vec")
+
+
 def m_range_next(engine, st, fr, callee, args, ops):
     """`<Range<int> as Iterator>::next` with possibly symbolic bounds: Some(start) and start += 1 while start < end, else None
     (the number of iterations is bounded by the engine's loop bound; a longer run ends the path as `loop_bound`, never as a verdict)"""
@@ -1060,6 +1068,8 @@ MODELS = [
     (r"^<(std::ops::|core::ops::)?Range<\w+> as IntoIterator>::into_iter$", m_identity),
     (r"^<(std::ops::|core::ops::)?Range<\w+> as Iterator>::next$", m_range_next),
     (r"^<(Box|Vec|String|std::string::String|std::boxed::Box|std::vec::Vec)<?.*>? as Drop>::drop$", lambda e, s_, f, c, a, o: UNIT),   # freeing memory: no observable effect
+    (r"^(std::ops::|core::ops::)?RangeInclusive::<\w+>::new$", lambda e, s_, f, c, a, o: Adt("std::ops::RangeInclusive", None, [a[0], a[1], z3.BoolVal(False)])),
+    (r"^(std|alloc)::vec::from_elem::<", lambda e, s_, f, c, a, o: m_from_elem(e, s_, f, c, a, o)),
     (r"^(std|core)::mem::replace::<", m_mem_replace),
     (r"^(std|core)::mem::take::<", m_mem_take),
     # sequences
